@@ -181,22 +181,24 @@ fn rec_eq(g: &ScanIndex, w: &Rec) -> bool {
 fn gen_lines(nl: usize) -> Vec<Vec<u8>> {
     let mut lines: Vec<Vec<u8>> = Vec::new();
     let n = sym::choose("nlines", nl + 1);
+    // surrounding blanks: once per text
+    let pad = sym::choose("pad", 2) == 1;
     let mut i = 0;
     while i < n {
         let mut l: Vec<u8> = Vec::new();
-        match sym::choose("kind", 9) {
-            0 | 1 => {
+        match sym::choose("kind", 8) {
+            0 => {
                 l.extend_from_slice(b"PKGNAME=");
-                l.extend_from_slice(&sym::any_bytes("name", "set:a-1= ", 0, 2));
+                l.extend_from_slice(&sym::any_bytes("name", "set:a-1= ", 0, sym::bound(1, 2)));
             }
-            2 => {
-                // scalar key with symbolic value
-                let k = [2usize, 6, 7, 12][sym::choose("skey", 4)];
+            1 => {
+                // scalar key with symbolic value (which key: by position)
+                let k = [2usize, 6, 7, 12][i % 4];
                 l.extend_from_slice(KEYS[k].as_bytes());
                 l.push(b'=');
-                l.extend_from_slice(&sym::any_bytes("val", "set:a= :/.", 0, 2));
+                l.extend_from_slice(&sym::any_bytes("val", "set:a= :/.", 0, sym::bound(1, 2)));
             }
-            3 => {
+            2 => {
                 l.extend_from_slice(b"ALL_DEPENDS=");
                 match sym::choose("deps", 4) {
                     0 => {}
@@ -205,24 +207,24 @@ fn gen_lines(nl: usize) -> Vec<Vec<u8>> {
                     _ => l.extend_from_slice(b"p-1:../../c/p bad"),
                 }
             }
-            4 => {
+            3 => {
                 l.extend_from_slice(b"PKG_LOCATION=");
                 if sym::choose("loc", 2) == 0 {
                     l.extend_from_slice(b"cat/pk");
                 } else {
-                    l.extend_from_slice(&sym::any_bytes("locv", "set:a/.", 0, 3));
+                    l.extend_from_slice(&sym::any_bytes("locv", "set:a/.", 0, sym::bound(2, 3)));
                 }
             }
-            5 => {
-                let k = [11usize, 13][sym::choose("lkey", 2)];
+            4 => {
+                let k = [11usize, 13][i % 2];
                 l.extend_from_slice(KEYS[k].as_bytes());
                 l.extend_from_slice(b"= x  y/z ");
             }
-            6 => l.extend_from_slice(b"UNKNOWN_KEY=1"),
-            7 => l.extend_from_slice(b"no equals here"),
+            5 => l.extend_from_slice(b"UNKNOWN_KEY=1"),
+            6 => l.extend_from_slice(b"no equals here"),
             _ => l.extend_from_slice(b"  "),
         }
-        if sym::choose("pad", 2) == 1 {
+        if pad {
             let mut p = b" ".to_vec();
             p.extend_from_slice(&l);
             p.push(b' ');
